@@ -203,6 +203,7 @@ impl SizeSerializer {
     ensures
         r is Ok ==> r->Ok_0 == var_size(old(self).is_array_element, utf8(v@).len() as int),                 // [C20.size.str] serialized_size of a string/symbol == the number of octets the encoder writes for it (same function of length and position)
         r is Err ==> old(self).is_array_element is False && utf8(v@).len() > 0xffff_fffb,                    // [C20.size.str-refusal] refused exactly when the encoder refuses
+        r is Ok && old(self).is_array_element is False ==> final(self).non_native_type is None,              // [C20.size.marker-cleared] like the encoder (unit SERSTR: [C03.ser.marker-cleared]) the size pass takes the Symbol marker with the value it belongs to: the two passes stay in step for whatever is sized next
 //@@ end
 
 //@@ fn file=serde_amqp/src/size_ser.rs impl=`~ser::Serializer for &'a mut SizeSerializer` name=serialize_bool as=size_bool
